@@ -31,7 +31,18 @@ class Obj:
     good: bool = True
 
 
-SHAPES = ["entity", "set_of", "filtered", "product", "filtered_set_of"]
+@dataclass(eq=False)
+class Bag:
+    """an entity whose truth value is False when it is empty (defines __len__)"""
+    k: int
+    good: bool = True
+    n: int = 0
+
+    def __len__(self):
+        return self.n
+
+
+SHAPES = ["entity", "set_of", "filtered", "product", "filtered_set_of", "filtered_falsy", "falsy_first"]
 
 
 def cases(tier, seed):
@@ -133,6 +144,16 @@ def build_query(shape, n, c):
         if shape == "filtered":
             return q(entity(x, x.good == True)), good, lambda r: r
         return q(set_of([x], x.good == True)), good, lambda r: r[x]
+    if shape in ("filtered_falsy", "falsy_first"):
+        # solutions that are falsy Python objects (empty containers) must count like any other solution
+        dom = [Bag(-1, False, 1)]
+        for i in range(n):
+            empty = (i % 2 == 0) if shape == "filtered_falsy" else (i == 0)
+            dom.append(Bag(i, True, 0 if empty else 2))
+            dom.append(Bag(100 + i, False, i % 2))
+        x = let(Bag, dom, name="x")
+        good = [o for o in dom if o.good]
+        return q(entity(x, x.good == True)), good, lambda r: r
     if shape == "product":
         fac = {0: (0, 3), 1: (1, 1), 2: (1, 2), 3: (3, 1), 4: (2, 2), 6: (2, 3), 9: (3, 3)}[n]
         dx = [Obj(i) for i in range(fac[0])]
